@@ -37,7 +37,9 @@ Definition comp_eqb (a b : comp) : bool :=
   | _, _ => false
   end.
 
-Definition term_eqb (a b : term) : bool := list_eqb comp_eqb a b.
+(* Term.__eq__: set(self.components) == set(other.components) *)
+Definition term_eqb (a b : term) : bool :=
+  forallb (fun x => existsb (comp_eqb x) b) a && forallb (fun y => existsb (comp_eqb y) a) b.
 
 Definition cterm_eqb (a b : cterm) : bool :=
   match a, b with
@@ -89,9 +91,16 @@ Definition empty_model : model := Mod None [] [].
 
 Inductive anyterm := AC (c : cterm) | AG (g : gterm).
 
+(* keeps the first occurrence of each term *)
+Fixpoint dedup {T} (eqb : T -> T -> bool) (acc l : list T) : list T :=
+  match l with
+  | [] => acc
+  | x :: r => if existsb (eqb x) acc then dedup eqb acc r else dedup eqb (acc ++ [x])%list r
+  end.
+
 Definition mk_model (ts : list anyterm) (r : option term) : model :=
-  Mod r (flat_map (fun a => match a with AC c => [c] | AG _ => [] end) ts)
-        (flat_map (fun a => match a with AG g => [g] | AC _ => [] end) ts).
+  Mod r (dedup cterm_eqb [] (flat_map (fun a => match a with AC c => [c] | AG _ => [] end) ts))
+        (dedup gterm_eqb [] (flat_map (fun a => match a with AG g => [g] | AC _ => [] end) ts)).
 
 Definition add_term (m : model) (a : anyterm) : res model :=
   match a with
@@ -308,8 +317,10 @@ Definition v_div (a b : value) : res value :=
       match b with
       | VT t' => do m' <- add_term m (AC (CT (mk_term (common_components m ++ t')%list))); Ok (VM m')
       | VM o =>
-          let it := map (fun c => AC (CT (mk_term (common_components m ++ [c])%list)))
-                        (common_components o) in
+          let it := flat_map (fun c => match c with
+                                       | CT t => [AC (CT (mk_term (common_components m ++ t)%list))]
+                                       | _ => [] end)
+                             (commons o) in
           do m' <- add_terms m (model_terms (mk_model it None)); Ok (VM m')
       | _ => Err EType
       end
